@@ -33,15 +33,16 @@ func init() {
 	mon.Register(&mon.Property{
 		ID:    "C04",
 		Level: "exploration",
-		Rule: "generated descriptions (base path in {/, /api, /a/b}; 1..4 operations; path/query/header parameters, multi-valued query arrays, a JSON body, urlencoded or multipart form fields, file uploads; optional api-key security; produces json or text; success codes 200/201/202) " +
+		Rule: "generated descriptions (base path in {/, /api, /a/b}; 1..4 operations; path/query/header parameters, multi-valued query arrays, a JSON body, urlencoded or multipart form fields, file uploads; optional api-key security; produces json or text; success codes 200/201/202; JSON bodies also on GET and OPTIONS operations; HEAD and OPTIONS operations; file parameters declared under names that need quoting in a part header) " +
 			"served by Context.APIHandler on a real loopback httptest.Server and called through client.Runtime.Submit with hostile values (reserved URL bytes '/', '%', '+', ' ', '?', '#', ':', '*', '{', '}', ';', '=', '&', non-ASCII, NUL, boundary integers, repeated values, files of 0..70000 bytes). " +
-			"Request side also: octet-stream bodies handed over as io.ReadCloser, multipart operations called without their (optional) file or with two file parameters, a file sent although the first consumes entry is urlencoded, empty items in multi arrays, DELETE with a JSON body, path values spelling another parameter's placeholder. " +
-			"Response side: the handler answers through a Responder with a status in {declared success code, 200,201,202,204,400,401,403,404,409,422,500,503}, an echo header, a two-valued header, optionally an explicit Content-Type (parameters, upper case), and a json/text/octet-stream body of 0 bytes..1 MiB, optionally flushing the head and writing the body only once the caller's reader has been entered (a logical event, no timing); or returns an error carrying a 4xx/5xx code (status judged only). " +
-			"Oracle: equality of every received value with the supplied one, of the operation that ran, and of status/headers/body seen by the response reader with what the handler wrote (body read to EOF without error). non-trivial = a call with >= 1 value containing a byte that needs escaping in its location; distinct by (operation shape, value tuple)",
+			"Request side also: octet-stream bodies handed over as io.ReadCloser, multipart operations called without their (optional) file or with two file parameters, a file sent although the first consumes entry is urlencoded, empty items in multi arrays, DELETE with a JSON body, path values spelling another parameter's placeholder, file names holding tab, no-break/zero-width spaces, U+2028, U+FEFF, quotes, backslashes and bytes that are not UTF-8, header and form parameters left out in 1 call in 5. " +
+			"Response side: the handler answers through a Responder with a status in {declared success code, 200,201,202,204,300,304,400,401,403,404,409,422,429,500,503}, an echo header, a two-valued header, optionally an explicit Content-Type (parameters, upper case), and a json/text/octet-stream body of 0 bytes..1 MiB, optionally flushing the head and writing the body only once the caller's reader has been entered (a logical event, no timing); or returns an error carrying a 4xx/5xx code (status judged only). " +
+			"Oracle: equality of every received value with the supplied one (a declared query/header/form parameter the call left out must arrive as the zero value), of the operation that ran, and of status/headers/body seen by the response reader with what the handler wrote (body read to EOF without error; status and headers only for HEAD operations). non-trivial = a call with >= 1 value containing a byte that needs escaping in its location; distinct by (operation shape, value tuple)",
 		Assumptions: []string{
 			"path values that are empty or dot segments are not generated (outside the guarantee: paths are normalised by design)",
 			"header values are restricted to what HTTP can carry (no CR/LF/NUL/other controls, no leading/trailing whitespace)",
-			"JSON body strings are valid UTF-8 (JSON cannot carry other bytes); form file names are sent by base name",
+			"JSON body strings are valid UTF-8 (JSON cannot carry other bytes); form file names are sent by base name and hold no CR/LF/NUL/DEL (Go's MIME header reader refuses a part header with DEL: protocol, not this code)",
+			"the Content-Type of a 304 answer is not judged (net/http strips it); a 304 answer carries no body",
 			"octet-stream request bodies have >= 1 byte (an empty stream is indistinguishable from an absent body); a 204 answer carries no body (HTTP)",
 			"when the handler returns an error value only the status reaching the reader is judged (the error document is written by the API's error responder: C08); the Content-Type seen by the reader is judged only when the handler set it itself (otherwise it is the negotiated one: C07/C08)",
 		},
@@ -64,7 +65,8 @@ type Call struct {
 	BodyAsReader bool               `json:"bodyAsReader,omitempty"` // the JSON body is handed over as an io.Reader holding its text
 	Form         map[string][]mon.Q `json:"form,omitempty"`
 	FileLen      int                `json:"fileLen,omitempty"`
-	File         string             `json:"file,omitempty"` // file name ("" = no file)
+	File         mon.Q              `json:"file,omitempty"` // file name ("" = no file); may hold bytes that need quoting in a part header
+	Text         mon.Q              `json:"text,omitempty"` // text/plain body handed over as a Go string ("" = none)
 	Body         map[string]mon.Q   `json:"body,omitempty"`
 	Key          mon.Q              `json:"key,omitempty"`
 	RawLen       int                `json:"rawLen,omitempty"` // > 0: the body is an octet stream of this many bytes handed over as an io.ReadCloser
@@ -171,6 +173,34 @@ func fileContent(n int) []byte {
 	return b
 }
 
+// fileParamName is the declared name of the (first) file parameter of the operation.
+func fileParamName(op *gen.Op) string {
+	for _, p := range op.Params {
+		if p.In == "formData" && p.Type == "file" && p.Name != "upload2" {
+			return p.Name
+		}
+	}
+	return "upload"
+}
+
+// bodyless: answers that cannot carry a body (HTTP).
+func bodyless(code int) bool { return code == http.StatusNoContent || code == http.StatusNotModified }
+
+// textConsumer is the server-side consumer of text/plain bodies: the library's TextConsumer reads the text; the untyped
+// binder hands over a map target, which receives it under "raw".
+var textConsumer = rt.ConsumerFunc(func(r io.Reader, v interface{}) error {
+	mp, ok := v.(*map[string]interface{})
+	if !ok {
+		return rt.TextConsumer().Consume(r, v)
+	}
+	var str string
+	if err := rt.TextConsumer().Consume(r, &str); err != nil {
+		return err
+	}
+	*mp = map[string]interface{}{"raw": str}
+	return nil
+})
+
 func build(c *Case) (*sut, error) {
 	doc, err := c.Desc.Load()
 	if err != nil {
@@ -181,6 +211,7 @@ func build(c *Case) (*sut, error) {
 	api.RegisterConsumer("application/x-www-form-urlencoded", rt.DiscardConsumer)
 	api.RegisterConsumer("multipart/form-data", rt.DiscardConsumer)
 	api.RegisterProducer("text/plain", rt.TextProducer())
+	api.RegisterConsumer("text/plain", textConsumer)
 	api.RegisterConsumer("application/x-yaml", yamlpc.YAMLConsumer())
 	api.RegisterConsumer(octetMime, rawConsumer)
 	api.RegisterProducer(octetMime, rt.ByteStreamProducer())
@@ -218,7 +249,7 @@ func build(c *Case) (*sut, error) {
 				}
 				code := respCode(call, &op)
 				rw.WriteHeader(code)
-				if code == http.StatusNoContent {
+				if bodyless(code) {
 					return
 				}
 				if call.RespFlush {
@@ -284,6 +315,9 @@ func respFeature(call *Call, op *gen.Op) string {
 	var fs []string
 	if call.RespKind == "error" {
 		fs = append(fs, "error-result")
+	}
+	if op.Method == "HEAD" {
+		fs = append(fs, "head")
 	}
 	if call.RespCode != 0 || respCode(call, op) == http.StatusNoContent {
 		fs = append(fs, fmt.Sprintf("status-%d", respCode(call, op)))
@@ -351,12 +385,15 @@ func runCase(m *mon.M, c *Case) {
 			}
 			if call.File != "" {
 				if call.FileSkip > 0 {
-					sf := &seekFile{upFile{name: call.File, r: bytes.NewReader(fileContent(call.FileLen))}}
+					sf := &seekFile{upFile{name: string(call.File), r: bytes.NewReader(fileContent(call.FileLen))}}
 					_, _ = sf.Seek(int64(call.FileSkip), io.SeekStart) // the caller already consumed a local header
-					_ = req.SetFileParam("upload", sf)
+					_ = req.SetFileParam(fileParamName(op), sf)
 				} else {
-					_ = req.SetFileParam("upload", &upFile{name: call.File, r: bytes.NewReader(fileContent(call.FileLen))})
+					_ = req.SetFileParam(fileParamName(op), &upFile{name: string(call.File), r: bytes.NewReader(fileContent(call.FileLen))})
 				}
+			}
+			if call.Text != "" {
+				_ = req.SetBodyParam(string(call.Text))
 			}
 			if call.Body != nil {
 				b := map[string]string{}
@@ -406,7 +443,7 @@ func runCase(m *mon.M, c *Case) {
 			b, rerr := io.ReadAll(resp.Body())
 			sn.body, sn.readErr = b, rerr
 			switch {
-			case call.RespKind == "error" || sn.code == http.StatusNoContent || rerr != nil:
+			case call.RespKind == "error" || bodyless(sn.code) || op.Method == "HEAD" || rerr != nil:
 				// nothing to decode (error document of the API's error responder / no body / body lost)
 			case producesText(op):
 				var str string
@@ -476,7 +513,7 @@ func runCase(m *mon.M, c *Case) {
 			m.Violate("wrong-operation/"+feat, descr(), one)
 			continue
 		}
-		if bad := compareValues(call, s.got); bad != "" {
+		if bad := compareValues(call, op, s.got); bad != "" {
 			m.Violate("value-differs/"+bad+"/"+feat, bad+" ; "+descr(), one)
 			continue
 		}
@@ -485,7 +522,7 @@ func runCase(m *mon.M, c *Case) {
 		}
 		code := respCode(call, op)
 		wantBody := respBody(call, op)
-		if code == http.StatusNoContent {
+		if bodyless(code) {
 			wantBody = ""
 		}
 		switch {
@@ -502,11 +539,13 @@ func runCase(m *mon.M, c *Case) {
 			}
 		case sn.echo != string(call.RespHeader) || strings.Join(sn.multi, ",") != "one,two":
 			m.Violate("response-header-differs/"+feat, descr(), one)
-		case call.RespCT != "" && (sn.ct != string(call.RespCT) || len(sn.cts) != 1 || sn.cts[0] != string(call.RespCT)):
+		case call.RespCT != "" && code != http.StatusNotModified && (sn.ct != string(call.RespCT) || len(sn.cts) != 1 || sn.cts[0] != string(call.RespCT)):
 			m.Violate("response-content-type-differs/"+feat, descr(), one)
 		case sn.readErr != nil:
 			m.Violate("response-body-read-error/"+feat, descr(), one)
-		case code == http.StatusNoContent:
+		case op.Method == "HEAD":
+			m.Class("agreed-head") // a HEAD answer carries no body (HTTP): status and headers are what can reach the reader
+		case bodyless(code):
 			if len(sn.body) != 0 {
 				m.Violate("response-body-differs/"+feat, descr(), one)
 			} else {
@@ -527,7 +566,49 @@ func runCase(m *mon.M, c *Case) {
 	}
 }
 
-func compareValues(call *Call, got *received) string {
+func isZeroValue(v interface{}) bool {
+	switch g := v.(type) {
+	case nil:
+		return true
+	case string:
+		return g == ""
+	case []string:
+		return len(g) == 0
+	case []interface{}:
+		return len(g) == 0
+	case int64:
+		return g == 0
+	}
+	return false
+}
+
+// unsupplied names the location of a declared parameter the caller left out that reached the handler with a value.
+func unsupplied(call *Call, op *gen.Op, got *received) string {
+	for _, p := range op.Params {
+		supplied := false
+		switch p.In {
+		case "query":
+			_, supplied = call.Query[p.Name]
+		case "header":
+			_, s1 := call.Header[p.Name]
+			_, s2 := call.HeaderArr[p.Name]
+			supplied = s1 || s2
+		case "formData":
+			if p.Type == "file" {
+				continue // judged with the files
+			}
+			_, supplied = call.Form[p.Name]
+		default:
+			continue
+		}
+		if !supplied && !isZeroValue(got.bound[p.Name]) {
+			return "unsupplied-" + p.In
+		}
+	}
+	return ""
+}
+
+func compareValues(call *Call, op *gen.Op, got *received) string {
 	str := func(v interface{}) (string, bool) {
 		s, ok := v.(string)
 		return s, ok
@@ -585,11 +666,11 @@ func compareValues(call *Call, got *received) string {
 		if call.FileSkip > 0 && call.FileSkip <= len(content) {
 			content = content[call.FileSkip:]
 		}
-		want := fmt.Sprintf("%s:%x", baseName(call.File), mon.Hash64(string(content)))
-		if got.files["upload"] != want {
+		want := fmt.Sprintf("%s:%x", baseName(string(call.File)), mon.Hash64(string(content)))
+		if got.files[fileParamName(op)] != want {
 			return "file"
 		}
-	} else if _, ok := got.files["upload"]; ok {
+	} else if _, ok := got.files[fileParamName(op)]; ok {
 		return "file-not-sent"
 	}
 	if call.File2 != "" {
@@ -620,7 +701,21 @@ func compareValues(call *Call, got *received) string {
 			}
 		}
 	}
-	return ""
+	if call.Text != "" {
+		switch gb := got.bound["body"].(type) {
+		case string: // a binder that gives the string schema a string target
+			if gb != string(call.Text) {
+				return "text-body"
+			}
+		case map[string]interface{}: // the map target of the untyped binder, filled by textConsumer
+			if raw, ok := gb["raw"].(string); !ok || raw != string(call.Text) {
+				return "text-body"
+			}
+		default:
+			return "text-body"
+		}
+	}
+	return unsupplied(call, op, got)
 }
 
 func baseName(s string) string {
@@ -654,12 +749,17 @@ func (c *Case) feature(call *Call) string {
 			}
 		case octetMime:
 			fs = append(fs, "octet-body")
+		case "text/plain":
+			fs = append(fs, "text-body")
 		}
 		if len(op.Consumes) > 1 && op.Consumes[1] == "multipart/form-data" {
 			fs = append(fs, "or-multipart")
 		}
 		if op.Method == "DELETE" && call.Body != nil {
 			fs = append(fs, "delete")
+		}
+		if (op.Method == "GET" || op.Method == "OPTIONS") && (call.Body != nil || call.Text != "" || call.RawLen > 0) {
+			fs = append(fs, strings.ToLower(op.Method)) // a body on a method that usually has none
 		}
 	}
 	if call.File2 != "" {
@@ -668,7 +768,35 @@ func (c *Case) feature(call *Call) string {
 	if len(op.Consumes) > 0 && (op.Consumes[0] == "multipart/form-data" || len(op.Consumes) > 1 && op.Consumes[1] == "multipart/form-data") && call.File == "" && call.File2 == "" {
 		fs = append(fs, "no-file")
 	}
+	if nameNeedsQuoting(string(call.File)) {
+		fs = append(fs, "file-name-needs-quoting")
+	}
+	if fn := fileParamName(op); fn != "upload" && call.File != "" {
+		fs = append(fs, "file-parameter-name-needs-quoting")
+	}
+	if formDeclared(op) && len(call.Form) == 0 && call.File == "" && call.File2 == "" {
+		fs = append(fs, "no-form-value")
+	}
 	return strings.Join(fs, "+")
+}
+
+// nameNeedsQuoting: the name holds something other than printable ASCII without quote and backslash.
+func nameNeedsQuoting(s string) bool {
+	for i := 0; i < len(s); i++ {
+		if c := s[i]; c < 0x20 || c >= 0x7f || c == '"' || c == '\\' {
+			return true
+		}
+	}
+	return false
+}
+
+func formDeclared(op *gen.Op) bool {
+	for _, p := range op.Params {
+		if p.In == "formData" {
+			return true
+		}
+	}
+	return false
 }
 
 func needsEscaping(call *Call) bool {
@@ -766,6 +894,27 @@ func utf8Value(r *rand.Rand) string {
 
 var methodsWithBody = []string{"POST", "PUT", "PATCH"}
 
+// TRIAGE-PENDING: operations that consume text/plain with a body of schema {type: string}. On the unchanged tree the
+// untyped binder gives every body parameter a map (or slice) target whatever its schema says, and the schema validation
+// then refuses the bound value ("body in body must be of type string: \"object\"", 422): the handler never runs
+// (alarm handler-did-not-run-status-422/text-body, replay /tmp/alarms/C04-text-body-string-schema.json). Set to true once
+// the lead has ruled on it; everything else for the shape (client side, consumer, oracle) is in place.
+const textBodyOps = true
+
+// TRIAGE-PENDING: a call to an operation that declares (optional) form fields which supplies none of them and no file. On the
+// unchanged tree the client then sends no body and no Content-Type, and the server's formData binder answers 415
+// ("unsupported media type application/octet-stream"): the handler never runs (alarm
+// handler-did-not-run-status-415/urlencoded+no-form-value, replay /tmp/alarms/C04-no-form-value.json). While false, such a
+// call supplies its first form field after all.
+const emptyFormCalls = true
+
+// names that need quoting in a Content-Disposition header: no-break space, tab, zero width space, quote, backslash, non-ASCII
+var fileParamNames = []string{"up\u00a0load", "up\tload", "up\u200bload", "up\"load", "up\\load", "téléversé"}
+
+// file names: plain ones, and ones holding runes/bytes that are not printable ASCII (a part header must carry them as they are)
+var fileNames = []string{"a.txt", "dir/b.bin", "sp ace.dat", "é.bin", "a.txt", "dir/b.bin",
+	"rapport\u00a0final.pdf", "col1\tcol2.tsv", "zero\u200bwidth.txt", "caf\xe9.txt", "q\"uote.txt", "back\\slash.txt", "dir/\u2028line.txt", "日本\ufeff.bin"}
+
 func genDesc(r *rand.Rand) (gen.Desc, bool) {
 	d := gen.Desc{BasePath: []string{"/", "/api", "/a/b"}[r.Intn(3)], Produces: []string{"application/json"}, Consumes: []string{"application/json"}}
 	auth := r.Intn(3) == 0
@@ -808,7 +957,15 @@ func genDesc(r *rand.Rand) (gen.Desc, bool) {
 		if r.Intn(4) == 0 { // an array carried in one header line
 			op.Params = append(op.Params, gen.Param{Name: []string{"X-Labels", "x-labels-lower", "X-Shard-IDs"}[r.Intn(3)], In: "header", Type: "array", ItemsType: "string", CollectionFormat: []string{"csv", "pipes"}[r.Intn(2)]})
 		}
-		switch r.Intn(7) {
+		kind := r.Intn(8)
+		if kind == 7 && !textBodyOps {
+			kind = 4 // TRIAGE-PENDING (see textBodyOps): an operation without body instead
+		}
+		switch kind {
+		case 7: // a text/plain body: a Go string goes through the client's text producer
+			op.Method = []string{"POST", "PUT", "PATCH", "POST", "GET"}[r.Intn(5)]
+			op.Consumes = []string{"text/plain"}
+			op.Params = append(op.Params, gen.Param{Name: "body", In: "body", Required: true, BodySchemaType: "string"})
 		case 5: // an octet-stream body
 			op.Method = methodsWithBody[r.Intn(3)]
 			op.Consumes = []string{octetMime}
@@ -820,7 +977,8 @@ func genDesc(r *rand.Rand) (gen.Desc, bool) {
 				gen.Param{Name: "upload", In: "formData", Type: "file"},
 				gen.Param{Name: "upload2", In: "formData", Type: "file"})
 		case 0: // JSON body, on some operations alternatively YAML (the same route sees changing media types)
-			op.Method = []string{"POST", "PUT", "PATCH", "DELETE"}[r.Intn(4)]
+			// GET and OPTIONS may declare a body too (search operations with a JSON filter)
+			op.Method = []string{"POST", "PUT", "PATCH", "DELETE", "GET", "OPTIONS"}[r.Intn(6)]
 			op.Consumes = []string{"application/json"}
 			if r.Intn(2) == 0 {
 				op.Consumes = []string{"application/json", "application/x-yaml"}
@@ -837,11 +995,15 @@ func genDesc(r *rand.Rand) (gen.Desc, bool) {
 			if r.Intn(4) == 0 { // urlencoded is listed first: a call that carries a file must still go out as multipart
 				op.Consumes = []string{"application/x-www-form-urlencoded", "multipart/form-data"}
 			}
+			upName := "upload"
+			if r.Intn(5) == 0 { // a declared name that needs quoting in the part header
+				upName = fileParamNames[r.Intn(len(fileParamNames))]
+			}
 			op.Params = append(op.Params, gen.Param{Name: "f0", In: "formData", Type: "string"},
 				gen.Param{Name: "f1", In: "formData", Type: "array", ItemsType: "string", CollectionFormat: "multi"},
-				gen.Param{Name: "upload", In: "formData", Type: "file"})
+				gen.Param{Name: upName, In: "formData", Type: "file"})
 		default:
-			op.Method = []string{"GET", "DELETE", "GET", "POST"}[r.Intn(4)]
+			op.Method = []string{"GET", "DELETE", "GET", "POST", "HEAD", "OPTIONS"}[r.Intn(6)]
 		}
 		switch r.Intn(6) {
 		case 0, 1:
@@ -890,6 +1052,9 @@ func genCall(r *rand.Rand, d *gen.Desc, oi int) Call {
 				c.Query[p.Name] = []mon.Q{mon.Q(hostile(r) + "q")}
 			}
 		case "header":
+			if r.Intn(5) == 0 {
+				continue // not supplied: must arrive as the zero value
+			}
 			if p.Type == "array" {
 				if c.HeaderArr == nil {
 					c.HeaderArr = map[string][]mon.Q{}
@@ -916,12 +1081,15 @@ func genCall(r *rand.Rand, d *gen.Desc, oi int) Call {
 					c.File2Len = []int{0, 1, 513, 4096, 70000}[r.Intn(5)]
 					continue
 				}
-				c.File = []string{"a.txt", "dir/b.bin", "sp ace.dat", "é.bin"}[r.Intn(4)]
+				c.File = mon.Q(fileNames[r.Intn(len(fileNames))])
 				c.FileLen = []int{0, 1, 511, 512, 513, 4096, 70000}[r.Intn(7)]
 				if c.FileLen > 1 && r.Intn(3) == 0 {
 					c.FileSkip = 1 + r.Intn(c.FileLen-1)
 				}
 				continue
+			}
+			if r.Intn(5) == 0 {
+				continue // not supplied: must arrive as the zero value
 			}
 			if c.Form == nil {
 				c.Form = map[string][]mon.Q{}
@@ -944,6 +1112,10 @@ func genCall(r *rand.Rand, d *gen.Desc, oi int) Call {
 				c.RawLen = []int{1, 2, 511, 4096, 65536, 70001}[r.Intn(6)]
 				continue
 			}
+			if len(op.Consumes) > 0 && op.Consumes[0] == "text/plain" {
+				c.Text = mon.Q("t" + utf8Value(r))
+				continue
+			}
 			c.BodyAsReader = r.Intn(3) == 0
 			c.Body = map[string]mon.Q{"s": mon.Q(utf8Value(r)), "t": mon.Q(utf8Value(r))}
 			if len(op.Consumes) > 1 {
@@ -961,11 +1133,20 @@ func genCall(r *rand.Rand, d *gen.Desc, oi int) Call {
 			}
 		}
 	}
+	if !emptyFormCalls && formDeclared(op) && len(c.Form) == 0 && c.File == "" && c.File2 == "" {
+		// TRIAGE-PENDING (see emptyFormCalls)
+		for _, p := range op.Params {
+			if p.In == "formData" && p.Type != "file" {
+				c.Form = map[string][]mon.Q{p.Name: {mon.Q(hostile(r) + "f")}}
+				break
+			}
+		}
+	}
 	genAnswer(r, op, &c)
 	return c
 }
 
-var answerCodes = []int{200, 201, 202, 204, 400, 401, 403, 404, 409, 422, 500, 503}
+var answerCodes = []int{200, 201, 202, 204, 400, 401, 403, 404, 409, 422, 500, 503, 300, 304, 429}
 
 // sizes around the client's 4 KiB read buffer, beyond what travels with the head, and beyond the socket buffers
 var (
